@@ -53,3 +53,14 @@ def untraced():
     exclusively (e.g. parsing a concrete response in the oracle) -- a symbolic value touched inside would be an error."""
     from crosshair import tracers
     return tracers.NoTracing()
+
+
+def repo_root():
+    """the tree under analysis: /repo, unless VF_REPO names a scratch copy (used only by the seeded-change trials)"""
+    import os
+    return os.environ.get("VF_REPO") or "/repo"
+
+
+def repo_source(rel):
+    import os
+    return open(os.path.join(repo_root(), rel)).read()
